@@ -92,11 +92,11 @@ package pogreb
 //@   loop 1:
 //@     invariant idx == old(idx) && newSlot == old(newSlot) && it != nil && fresh(it) && it.overflow == idx.overflow && sw != nil && fresh(sw) && len(sw.prevBuckets) == 0
 //@     invariant it.off == 0 || (it.f == idx.main && bucketAt(it.off, idx.main.size)) || (it.f == idx.overflow && bucketAt(it.off, idx.overflow.size))
-//@     invariant free == nil || (free != sw && allocated(free) && allocated(free.bucket) && fresh(free) && fresh(free.bucket) && swOK(free, idx) && len(free.prevBuckets) == 0 && free.slotIdx < 31 && free.bucket.slots[free.slotIdx].offset == 0 && (forall p int :: 0 <= p && p < 31 ==> slotEncoded(fData[fidOf[free.bucket.file.File]], int(free.bucket.offset)+16*p, free.bucket.slots[p])) && uint64(free.bucket.next) == le64(fData[fidOf[free.bucket.file.File]], int(free.bucket.offset)+496))
+//@     auxinvariant free == nil || (free != sw && allocated(free) && allocated(free.bucket) && fresh(free) && fresh(free.bucket) && swOK(free, idx) && len(free.prevBuckets) == 0 && free.slotIdx < 31 && free.bucket.slots[free.slotIdx].offset == 0 && (forall p int :: 0 <= p && p < 31 ==> slotEncoded(fData[fidOf[free.bucket.file.File]], int(free.bucket.offset)+16*p, free.bucket.slots[p])) && uint64(free.bucket.next) == le64(fData[fidOf[free.bucket.file.File]], int(free.bucket.offset)+496))
 //@     modifies it.off, it.f, sw.bucket
 //@   loop 2:
 //@     invariant 0 <= i && i <= 31 && idx == old(idx) && newSlot == old(newSlot)
-//@     invariant free == nil || (free != sw && allocated(free) && allocated(free.bucket) && fresh(free) && fresh(free.bucket) && swOK(free, idx) && len(free.prevBuckets) == 0 && free.slotIdx < 31 && free.bucket.slots[free.slotIdx].offset == 0 && (forall p int :: 0 <= p && p < 31 ==> slotEncoded(fData[fidOf[free.bucket.file.File]], int(free.bucket.offset)+16*p, free.bucket.slots[p])) && uint64(free.bucket.next) == le64(fData[fidOf[free.bucket.file.File]], int(free.bucket.offset)+496))
+//@     auxinvariant free == nil || (free != sw && allocated(free) && allocated(free.bucket) && fresh(free) && fresh(free.bucket) && swOK(free, idx) && len(free.prevBuckets) == 0 && free.slotIdx < 31 && free.bucket.slots[free.slotIdx].offset == 0 && (forall p int :: 0 <= p && p < 31 ==> slotEncoded(fData[fidOf[free.bucket.file.File]], int(free.bucket.offset)+16*p, free.bucket.slots[p])) && uint64(free.bucket.next) == le64(fData[fidOf[free.bucket.file.File]], int(free.bucket.offset)+496))
 //@     modifies nothing
 
 // split is ASSUMED for now (listed as trusted): it keeps the index files well formed and touches nothing else
